@@ -20,6 +20,29 @@ MISS = 'yakushima::status::WARN_STORAGE_NOT_EXIST'
 INF = 'yakushima::scan_endpoint::INF'
 
 
+
+CATALOGUE = 'yakushima::storage::storages_'
+
+
+def is_catalogue(f, n, depth=0):
+    """Does the expression denote the storage catalogue tree: storage::get_storages(), &storage::storages_, or a local that
+    was initialised from one of them?"""
+    if n is None or depth > 4:
+        return False
+    for y in f.walk(n):
+        if is_call(y, cq='yakushima::storage::get_storages'):
+            return True
+        if y['k'] == 'DeclRefExpr' and y.get('dk') == 'global' and y.get('id') == CATALOGUE:
+            return True
+        if y['k'] == 'MemberExpr' and y.get('member') == CATALOGUE:
+            return True
+        if y['k'] == 'DeclRefExpr' and y.get('dk') == 'var':
+            ini = R.var_decl_init(f, y.get('id'))
+            if ini is not None and is_catalogue(f, ini, depth + 1):
+                return True
+    return False
+
+
 def is_sv(t):
     return t.replace('const ', '').strip() == 'std::basic_string_view<char>'
 
@@ -263,7 +286,7 @@ def rule_unq(S):
         if len(ui) != 1:
             ui = [i for i, p in enumerate(tg.params) if p['name'] == 'unique_restriction'] if tg else []
         uniq = bool(ui) and ui[0] < len(a) and R.const_of(cs, a[ui[0]]) == 'T'
-        cat = any(is_call(x, cq='yakushima::storage::get_storages') for x in cs.walk(a[1])) if len(a) > 1 else False
+        cat = is_catalogue(cs, a[1]) if len(a) > 1 else False
         key = len(a) > 2 and root_var(cs, a[2]) == name
         S.ob('R-UNQ', cs.qname, 'catalogue insert', uniq and cat and key,
              'unique insert of the storage name into the catalogue' if (uniq and cat and key) else
@@ -293,12 +316,12 @@ def rule_unq(S):
                     for x in ds.walk(v['init']):
                         if is_call(x, cq='yakushima::remove'):
                             a = call_args(ds, x)
-                            if len(a) == 3 and any(is_call(y, cq='yakushima::storage::get_storages') for y in ds.walk(a[1])) \
+                            if len(a) == 3 and is_catalogue(ds, a[1]) \
                                     and root_var(ds, a[2]) == dname:
                                 rm_vars.add(v['id'])
         if is_call(n, cq='yakushima::get'):
             a = call_args(ds, n)
-            if len(a) >= 3 and any(is_call(y, cq='yakushima::storage::get_storages') for y in ds.walk(a[0])) and \
+            if len(a) >= 3 and is_catalogue(ds, a[0]) and \
                     root_var(ds, a[1]) == dname:
                 get_out.add(root_var(ds, a[2]))
     S.ob('R-UNQ', ds.qname, 'catalogue remove', bool(rm_vars),
@@ -390,7 +413,7 @@ def rule_unq(S):
     miss_ok = True
     nret = 0
     gets = [n for n in fs_.all_nodes() if is_call(n, cq='yakushima::get')]
-    cat = bool(gets) and all(any(is_call(y, cq='yakushima::storage::get_storages') for y in fs_.walk(call_args(fs_, g)[0]))
+    cat = bool(gets) and all(is_catalogue(fs_, call_args(fs_, g)[0])
                              and root_var(fs_, call_args(fs_, g)[1]) == fs_.params[0]['id'] for g in gets)
     S.ob('R-UNQ', fs_.qname, 'lookup in the catalogue', cat,
          'get(get_storages(), <name>, ...)' if cat else 'find_storage does not look the name up in the catalogue',
@@ -435,7 +458,7 @@ def rule_unq(S):
             full = R.const_of(g, arg('l_end')) == INF and R.const_of(g, arg('r_end')) == INF
             from yk.facts import cv_through
             nolimit = arg('max_size') is not None and cv_through(g, arg('max_size')) == 0
-            cat = any(is_call(y, cq='yakushima::storage::get_storages') for y in g.walk(a[0])) if a else False
+            cat = is_catalogue(g, a[0]) if a else False
             S.ob('R-UNQ', q, 'enumerates the whole catalogue', full and nolimit and cat,
                  'scan(get_storages(), INF, INF, max_size = 0)' if (full and nolimit and cat) else
                  'catalogue enumeration is bounded [INF/INF=%s, unlimited=%s, catalogue=%s]' % (full, nolimit, cat),
@@ -480,11 +503,11 @@ def rule_atom(S, rule='R-ATOM'):
     cs = facts.one('yakushima::storage::create_storage')
     facts.__dict__['_c13_guards'] = (guards_of, covered)
     lookups = [n for n in ds.all_nodes() if is_call(n, cq='yakushima::get') and
-               any(is_call(y, cq='yakushima::storage::get_storages') for a in call_args(ds, n)[:1] for y in ds.walk(a))]
+               any(is_catalogue(ds, a) for a in call_args(ds, n)[:1])]
     removes = [n for n in ds.all_nodes() if is_call(n, cq='yakushima::remove') and
-               any(is_call(y, cq='yakushima::storage::get_storages') for a in call_args(ds, n)[1:2] for y in ds.walk(a))]
+               any(is_catalogue(ds, a) for a in call_args(ds, n)[1:2])]
     inserts = [n for n in cs.all_nodes() if is_call(n, cq='yakushima::put') and
-               any(is_call(y, cq='yakushima::storage::get_storages') for a in call_args(cs, n)[1:2] for y in cs.walk(a))]
+               any(is_catalogue(cs, a) for a in call_args(cs, n)[1:2])]
     S.require(rule, 'catalogue lookup / remove in delete_storage', min(len(lookups), len(removes)), 1)
     S.require(rule, 'catalogue insert in create_storage', len(inserts), 1)
     dg = [g for g in guards_of(ds) if all(covered(g, n) for n in lookups + removes)]
